@@ -891,13 +891,19 @@ class UnionByTypeMethod(DeserializationMethod):
     method_by_cls: Dict[type, DeserializationMethod]
 
     def deserialize(self, data: Any) -> Any:
+        data_cls: type = type(data)
+        method = self.method_by_cls.get(data_cls)
+        if method is None:
+            # alternatives also accept subclasses of the JSON types (OrderedDict, etc.)
+            for data_cls, method in self.method_by_cls.items():
+                if isinstance(data, data_cls):
+                    break
+            else:
+                raise bad_type(data, *self.method_by_cls)
         try:
-            method: DeserializationMethod = self.method_by_cls[type(data)]
             return method.deserialize(data)
-        except KeyError:
-            raise bad_type(data, *self.method_by_cls) from None
         except ValidationError as err:
-            other_classes = (cls for cls in self.method_by_cls if cls is not type(data))
+            other_classes = (cls for cls in self.method_by_cls if cls is not data_cls)
             raise merge_errors(err, bad_type(data, *other_classes))
 
 
